@@ -418,9 +418,12 @@ def changed_annotation_check(ctx):
     texts = ["Def/MyDef, Clap", "(Def/MyDef, Blue), Def/Vd/abc", "(Def-expand/MyDef, (Red, (Blue, Event))), Clap",
              "((Def-expand/Vd/abc, (Label/abc, Sensory-event))), Def/MyDef"]
     queries = ["def", "def-expand", "{def-expand}", '"Def-expand/MyDef"', '"Def/MyDef"', "def-exp*", "def/my*", "red", "event",
-               "[def-expand && red]", "{def && clap}", "~def", "~def-expand", "informational-property", "label"]
+               "[def-expand && red]", "{def && clap}", "~def", "~def-expand", "informational-property", "label",
+               # across the boundary of a replaced part: inside && outside, negation, descendant group
+               "red && clap", "[red] && clap", "~event", "~sensory-event", "[blue && event]", "{red, clap}", "label && def",
+               "[label] && def"]
     for text in texts:
-        for hist in itertools.product(("expand", "shrink", "copy"), repeat=2):
+        for hist in itertools.product(("expand", "shrink", "copy", "replace-defs"), repeat=2):
             hs = env.HedString(text, env.schema, dd)
             try:
                 for op in hist:
@@ -428,6 +431,11 @@ def changed_annotation_check(ctx):
                         hs.expand_defs()
                     elif op == "shrink":
                         hs.shrink_defs()
+                    elif op == "replace-defs":
+                        # what HedTagManager.get_hed_objs(replace_defs=True) does: each Def tag gives way to its contents
+                        for def_tag in hs.find_def_tags(recursive=True, include_groups=0):
+                            if def_tag.expandable is not None:
+                                hs.replace(def_tag, def_tag.expandable.get_first_group())
                     else:
                         hs = hs.copy()
                 fresh = env.HedString(str(hs), env.schema, dd)
@@ -446,6 +454,45 @@ def changed_annotation_check(ctx):
                 rec.violation("C15:search-raises:" + type(e).__name__, annotation=text, history=list(hist), error=repr(e)[:200])
             rec.state(("changed", text, hist))
         rec.outcome("changed-annotation")
+
+
+def chain_check(ctx):
+    """Chains of three and four operands of one operator written without parentheses: the answer is that of the left-nested
+    parenthesised query (and, for '||', of 'some operand matches')."""
+    env = Env()
+    rec = ctx.rec
+    atoms = ["event", "sensory-event", "red", "blue", '"red"', "sens*", "~red", "{red}"]
+    anns, _ = build_annotations(3, 1, 1)
+    objs = [env.HedString(render(t), env.schema) for t in anns]
+    single = {a: [bool(env.search(a, o)) for o in objs] for a in atoms}
+    for n in (3, 4):
+        for combo in itertools.product(atoms[:6] if n == 4 else atoms, repeat=n):
+            for op in ("||", "&&"):
+                flat = f" {op} ".join(combo)
+                nested = combo[0]
+                for c in combo[1:]:
+                    nested = f"({nested} {op} {c})"
+                rec.n("evaluations", len(objs))
+                rec.n("transitions", len(objs))
+                rec.n("distinct_nontrivial", len(objs))
+                rec.state(("chain", n, op, tuple(sorted(set(combo)))))
+                try:
+                    a = [bool(env.search(flat, o)) for o in objs]
+                    b = [bool(env.search(nested, o)) for o in objs]
+                except Exception as e:
+                    rec.violation("C15:chain:raises:" + type(e).__name__, query=flat, error=repr(e)[:200])
+                    continue
+                if a != b:
+                    k = next(i for i, (x, y) in enumerate(zip(a, b)) if x != y)
+                    rec.violation(f"C15:chain:unparenthesised-chain-differs-from-left-nested:{op}:{n}", query=flat, nested=nested,
+                                  annotation=str(objs[k]), flat=a[k], parenthesised=b[k])
+                elif op == "||":
+                    want = [any(single[c][i] for c in combo) for i in range(len(objs))]
+                    if a != want:
+                        k = next(i for i, (x, y) in enumerate(zip(a, want)) if x != y)
+                        rec.violation(f"C15:chain:or-chain-is-not-some-operand-matches:{n}", query=flat, annotation=str(objs[k]),
+                                      got=a[k], operands={c: single[c][k] for c in combo})
+    rec.outcome("chains")
 
 
 def service_check(ctx):
@@ -522,6 +569,7 @@ def run(ctx):
     service_check(ctx)
     equal_group_orders(ctx)
     changed_annotation_check(ctx)
+    chain_check(ctx)
     ctx.rec.counts["states"] = len(ctx.rec.states)
 
 
